@@ -1,6 +1,9 @@
 import PySMT.Impl.Simp.Rules
 import PySMT.Impl.Simp.Bool
 import PySMT.Impl.Simp.Arith
+import PySMT.Impl.Simp.BV
+import PySMT.Impl.Simp.Str
+import PySMT.Impl.Simp.Array
 /-!
 # Model of `pysmt.simplifier.Simplifier` (pysmt/simplifier.py:33-1108)
 
@@ -65,8 +68,53 @@ def ruleOf : Op → Option Entry
   | .times => some ArithRules.walkTimes
   | .minus => some ArithRules.walkMinus
   | .div => some ArithRules.walkDiv
-  -- bit-vector family: Impl/Simp/BV.lean (to come)
-  -- string / array family: Impl/Simp/StrArr.lean (to come)
+  -- bit-vector family (Impl/Simp/BV.lean)
+  | .bvAnd => some BVRules.walkBvAnd
+  | .bvOr => some BVRules.walkBvOr
+  | .bvXor => some BVRules.walkBvXor
+  | .bvNot => some BVRules.walkBvNot
+  | .bvNeg => some BVRules.walkBvNeg
+  | .bvAdd => some BVRules.walkBvAdd
+  | .bvSub => some BVRules.walkBvSub
+  | .bvMul => some BVRules.walkBvMul
+  | .bvUdiv => some BVRules.walkBvUdiv
+  | .bvUrem => some BVRules.walkBvUrem
+  | .bvSdiv => some BVRules.walkBvSdiv
+  | .bvSrem => some BVRules.walkBvSrem
+  | .bvLshl => some BVRules.walkBvLshl
+  | .bvLshr => some BVRules.walkBvLshr
+  | .bvAshr => some BVRules.walkBvAshr
+  | .bvUlt => some BVRules.walkBvUlt
+  | .bvUle => some BVRules.walkBvUle
+  | .bvSlt => some BVRules.walkBvSlt
+  | .bvSle => some BVRules.walkBvSle
+  | .bvComp => some BVRules.walkBvComp
+  | .bvConcat => some BVRules.walkBvConcat
+  | .bvExtract => some BVRules.walkBvExtract
+  | .bvRol => some BVRules.walkBvRol
+  | .bvRor => some BVRules.walkBvRor
+  -- zext / sext: only the nodes whose width payload is operand width + step, as `BVZExt`/`BVSExt`
+  -- build them (the type checker accepts any width ≥ operand width; see `BVRules.extGuard`)
+  | .bvZext => some { rule := BVRules.walkBvZext, guard := BVRules.extGuard }
+  | .bvSext => some { rule := BVRules.walkBvSext, guard := BVRules.extGuard }
+  | .bvToNatural => some BVRules.walkBvToNatural
+  -- string family (Impl/Simp/Str.lean)
+  | .strLength => some StrRules.walkStrLength
+  | .strConcat => some StrRules.walkStrConcat
+  | .strCharAt => some StrRules.walkStrCharAt
+  | .strContains => some StrRules.walkStrContains
+  | .strIndexOf => some StrRules.walkStrIndexOf
+  | .strReplace => some StrRules.walkStrReplace
+  | .strSubstr => some StrRules.walkStrSubstr
+  | .strPrefixOf => some StrRules.walkStrPrefixOf
+  | .strSuffixOf => some StrRules.walkStrSuffixOf
+  | .strToInt => some StrRules.walkStrToInt
+  | .intToStr => some StrRules.walkIntToStr
+  -- array family (Impl/Simp/Array.lean): the instances whose index sort is not an array sort
+  -- (distinct constants of a scalar sort denote distinct indices; see `ArrayRules.scalarIdx`)
+  | .arraySelect => some { rule := ArrayRules.walkArraySelect, guard := ArrayRules.arrayGuard }
+  | .arrayStore => some { rule := ArrayRules.walkArrayStore, guard := ArrayRules.arrayGuard }
+  | .arrayValue => some { rule := ArrayRules.walkArrayValue, guard := ArrayRules.valueGuard }
   | _ => none
 
 /-- the simplifier -/
